@@ -25,6 +25,12 @@ def dispatch(prop):
     if prop in ("C07", "C09", "C11"):
         from . import envfull_check
         return getattr(envfull_check, prop.lower())
+    if prop == "C18":
+        from . import tabular_check
+        return tabular_check.c18
+    if prop == "C02":
+        from . import nolook_check
+        return nolook_check.c02
     raise SystemExit("no check registered for %s" % prop)
 
 
